@@ -9,6 +9,7 @@ constraints of the programme).
 import NumqiProofs.BoundaryLemmas
 import NumqiProofs.BoundaryDicke
 import NumqiProofs.BoundaryNesting
+import NumqiModel.Gellmann
 
 namespace Numqi.C06
 open Numqi Numqi.Boundary Matrix
@@ -325,6 +326,59 @@ theorem toFlat_ptB_ofFlat {dA dB : ℕ} {α : Type} [Zero α] (l : List α) (p q
       = l.getD (flatOfPair (p.1, q.2) * (dA * dB) + flatOfPair (q.1, p.2)) 0 :=
   Boundary.toFlat_ptB_ofFlat l p q
 
+/-! ## 7. bookkeeping of the inner models' `get_boundary`, and their Gell-Mann loss -/
+
+section inner
+
+/-- **the bisection of `get_boundary` (`_ree_bisection_solve`) brackets the threshold**: if the predicate `threshold ≤ hf x` is false at
+`x0` and true at `x1`, after `m` steps the loop holds `(a, b, xi)` with the predicate false at `a`, true at `b`,
+`b - a = (x1 - x0)/2^m`, and the returned `xi` is one of the two end points. -/
+theorem bisectLoop_invariant (hf : ℚ → ℚ) (thr : ℚ) :
+    ∀ (m : ℕ) (x0 x1 xi : ℚ), ¬ thr ≤ hf x0 → thr ≤ hf x1 → (xi = x0 ∨ xi = x1) →
+      let r := bisectLoop hf thr m x0 x1 xi
+      ¬ thr ≤ hf r.1 ∧ thr ≤ hf r.2.1 ∧ r.2.1 - r.1 = (x1 - x0) / 2 ^ m ∧ (r.2.2 = r.1 ∨ r.2.2 = r.2.1) := by
+  intro m
+  induction m with
+  | zero => intro x0 x1 xi h0 h1 hx; simp [bisectLoop, h0, h1, hx]
+  | succ m ih =>
+    intro x0 x1 xi h0 h1 _
+    simp only [bisectLoop]
+    by_cases hp : thr ≤ hf ((x0 + x1) / 2)
+    · rw [if_pos hp]
+      obtain ⟨a, b, c, d⟩ := ih x0 ((x0 + x1) / 2) ((x0 + x1) / 2) h0 hp (Or.inr rfl)
+      refine ⟨a, b, ?_, d⟩
+      rw [c, pow_succ]; field_simp; ring
+    · rw [if_neg hp]
+      obtain ⟨a, b, c, d⟩ := ih ((x0 + x1) / 2) x1 ((x0 + x1) / 2) hp h1 (Or.inl rfl)
+      refine ⟨a, b, ?_, d⟩
+      rw [c, pow_succ]; field_simp; ring
+
+/-- hence, for a monotone loss with threshold point `t ∈ (x0, x1]`, the returned boundary length is within `(x1-x0)/2^m` of `t`
+(`m = bisectMaxiter`, i.e. `≤ xtol`) -/
+theorem bisectLoop_error (hf : ℚ → ℚ) (thr t : ℚ) (ht : ∀ x, thr ≤ hf x ↔ t ≤ x) (m : ℕ) (x0 x1 : ℚ) (h0 : x0 < t) (h1 : t ≤ x1) :
+    |(bisectLoop hf thr m x0 x1 x0).2.2 - t| ≤ (x1 - x0) / 2 ^ m := by
+  obtain ⟨a, b, c, d⟩ := bisectLoop_invariant hf thr m x0 x1 x0 (by rw [ht]; exact not_le.2 h0) ((ht x1).2 h1) (Or.inl rfl)
+  rw [ht] at a b
+  have ha := not_le.1 a
+  rw [abs_le]
+  rcases d with d | d <;> rw [d] <;> constructor <;> linarith
+
+/-- the Gell-Mann loss of both inner models (`get_density_matrix_distance2`, C16's model `Gellmann.distance2`, executed by op
+`dist2`) vanishes at the target and is symmetric -/
+theorem distance2_self_symm {R : Type} [CommRing R] [StarRing R] (S : Gellmann.Scalars R) (n : ℕ) (A B : Gellmann.Mat n R) :
+    Gellmann.distance2 S n A A = 0 ∧ Gellmann.distance2 S n A B = Gellmann.distance2 S n B A := by
+  constructor
+  · simp [Gellmann.distance2, Gellmann.sumFin]
+  · unfold Gellmann.distance2
+    congr 1
+    refine congrArg _ (funext fun r => congrArg _ (funext fun c => ?_))
+    have : A r c - B r c = -(B r c - A r c) := by ring
+    rw [this]
+    simp [conj_eq_star]
+    ring
+
+end inner
+
 /-! ## non-vacuity -/
 
 section nonvac
@@ -335,6 +389,10 @@ noncomputable def ρ0 : Matrix (Fin 2) (Fin 2) ℂ := Matrix.diagonal ![3 / 4, 1
 
 /-- **all hypotheses of `dm_boundary_threshold` hold at `ρ = diag(3/4,1/4)`** (`μmin = 1/4` attained at `e₁`, `μmax = 3/4` at `e₀`):
 the state on its ray is positive exactly for `-1/2 ≤ β ≤ 1/2` -/
+-- bisection on concrete data: `hf = [x ≥ 5/16]`, 4 steps from `[0,1]`
+example : (bisectLoop (fun x : ℚ => if (5 : ℚ) / 16 ≤ x then 1 else 0) (1 / 2) 4 0 1 0).2.2 = 5 / 16 := by
+  norm_num [bisectLoop]
+
 example (β : ℝ) : (rayPoint 2 (1 / 4) ρ0 β).PosSemidef ↔ -(1 / 2) ≤ β ∧ β ≤ 1 / 2 := by
   have h := dm_boundary_threshold (n := Fin 2) 2 (1 / 4) (by norm_num) (by norm_num) ρ0 (1 / 4) (3 / 4) (by norm_num) (by norm_num)
     (by
